@@ -1,6 +1,129 @@
-/- C10 — statements are being added as the proofs land (see DESIGN.md §6). -/
+/-
+  C10 — a monotone ramp never moves a unit to a later-declared group.
+  "If weights are changed so that no leading cumulative share decreases, no unit moves
+  to a later-declared group: raising the first group's share from 10% to 20% keeps
+  everyone who was in it."
+  Statements only; helper lemmas live in `Pyab/Proofs/Choice.lean`, `Pyab/Proofs/Choice2.lean`.
+-/
+import Pyab.Model.Choice
+import Pyab.Spec.Interval
+import Pyab.Proofs.Choice2
+import Pyab.Properties.C03
 namespace Pyab.Properties
+open Pyab Pyab.Spec
 
-theorem C10_placeholder : True := trivial
+/-- **Monotone ramp, interval rule.**  `w → w'` with every leading cumulative share
+    `S_k / T` non-decreasing (cross-multiplied: `S_k · T' ≤ S'_k · T`): the group index of a
+    unit at grid position `h` does not increase.
+    (`hlen` and `hpos` are part of the property's wording but are not needed by the proof:
+    only `0 < total w'` is used.) -/
+theorem C10_monotone_ramp (w w' : List Nat) (h i j : Nat)
+    (hlen : w.length = w'.length) (hpos : 0 < total w) (hpos' : 0 < total w')
+    (hshare : ∀ k, k ≤ w.length → prefixSum w k * total w' ≤ prefixSum w' k * total w)
+    (hi : IsSpecIdx w h i) (hj : IsSpecIdx w' h j) : j ≤ i :=
+  have _ := hlen
+  have _ := hpos
+  Proofs.isSpecIdx_ramp w w' h i j hpos' hshare hi hj
+
+/-- **Monotone ramp, the indices the code returns** (integer weights, totals `< 2^21`,
+    32-bit hash position): same conclusion for `deterministic_choice`'s results. -/
+theorem C10_monotone_ramp_compiled (w w' : List Nat) (h i j : Nat) (hh : h < 2 ^ 32)
+    (hlen : w.length = w'.length)
+    (hpos : 0 < total w) (hT : total w < 2 ^ 21)
+    (hpos' : 0 < total w') (hT' : total w' < 2 ^ 21)
+    (hshare : ∀ k, k ≤ w.length → prefixSum w k * total w' ≤ prefixSum w' k * total w)
+    (hi : Choice.choiceIdx (some h) w.length (some (floatWeights w)) none = .ok (.idx i))
+    (hj : Choice.choiceIdx (some h) w'.length (some (floatWeights w')) none = .ok (.idx j)) :
+    j ≤ i := by
+  obtain ⟨i0, hi0, hsi⟩ := C03_int_exact w h hh hpos hT
+  obtain ⟨j0, hj0, hsj⟩ := C03_int_exact w' h hh hpos' hT'
+  rw [hi] at hi0
+  rw [hj] at hj0
+  have ei : i = i0 := Choice.Pick.idx.inj (Except.ok.inj hi0)
+  have ej : j = j0 := Choice.Pick.idx.inj (Except.ok.inj hj0)
+  subst ei; subst ej
+  exact C10_monotone_ramp w w' h i j hlen hpos hpos' hshare hsi hsj
+
+/-- **The literal "10% → 20%" form.**  Two groups `[a, b] → [a', b']` with the first group's
+    share not decreasing (`a/(a+b) ≤ a'/(a'+b')`, cross-multiplied): whoever was in group 0
+    stays in group 0.
+    The hypothesis `0 < a' + b'` is necessary: with `a = 1, b = 0, a' = b' = 0, h = 0` the share
+    inequality `1·0 ≤ 0·1` holds, `IsSpecIdx [1, 0] 0 0` holds, and `IsSpecIdx [0, 0] 0 0` fails
+    (all-zero weights select nobody; the code raises `ValueError`). -/
+theorem C10_two_group_ramp (a b a' b' h : Nat) (hpos' : 0 < a' + b')
+    (hshare : a * (a' + b') ≤ a' * (a + b))
+    (h0 : IsSpecIdx [a, b] h 0) : IsSpecIdx [a', b'] h 0 := by
+  obtain ⟨_, _, h2⟩ := h0
+  have e1 : total [a, b] = a + b := by simp [total]
+  have e2 : prefixSum [a, b] (0 + 1) = a := by simp [prefixSum]
+  have e1' : total [a', b'] = a' + b' := by simp [total]
+  have e2' : prefixSum [a', b'] (0 + 1) = a' := by simp [prefixSum]
+  rw [e1, e2] at h2
+  refine ⟨by simp, ?_, ?_⟩
+  · rw [Proofs.prefixSum_zero, Nat.zero_mul]; exact Nat.zero_le _
+  · rw [e1', e2']
+    apply Nat.lt_of_not_le
+    intro hge
+    exact Proofs.ramp_arith (2 ^ 32) (a + b) (a' + b') a a' h hpos' h2 hge hshare
+
+-- the counterexample showing `0 < a' + b'` cannot be dropped from `C10_two_group_ramp`
+example : 1 * (0 + 0) ≤ 0 * (1 + 0) ∧ IsSpecIdx [1, 0] 0 0 ∧ ¬ IsSpecIdx [0, 0] 0 0 := by decide
+
+/-- the same for the code's results: `[a, b] → [a', b']`, group 0 is kept -/
+theorem C10_two_group_ramp_compiled (a b a' b' h : Nat) (hh : h < 2 ^ 32)
+    (hT : a + b < 2 ^ 21) (hpos' : 0 < a' + b') (hT' : a' + b' < 2 ^ 21)
+    (hshare : a * (a' + b') ≤ a' * (a + b))
+    (h0 : Choice.choiceIdx (some h) 2 (some (floatWeights [a, b])) none = .ok (.idx 0)) :
+    Choice.choiceIdx (some h) 2 (some (floatWeights [a', b'])) none = .ok (.idx 0) := by
+  have e1 : total [a, b] = a + b := by simp [total]
+  have e1' : total [a', b'] = a' + b' := by simp [total]
+  by_cases hpos : 0 < a + b
+  · obtain ⟨i0, hi0, hsi⟩ := C03_int_exact [a, b] h hh (by omega) (by omega)
+    obtain ⟨j0, hj0, hsj⟩ := C03_int_exact [a', b'] h hh (by omega) (by omega)
+    have hi0' : Choice.choiceIdx (some h) 2 (some (floatWeights [a, b])) none
+        = .ok (.idx i0) := hi0
+    rw [h0] at hi0'
+    have ei : 0 = i0 := Choice.Pick.idx.inj (Except.ok.inj hi0')
+    subst ei
+    have := C03_spec_unique [a', b'] h _ _ hsj (C10_two_group_ramp a b a' b' h hpos' hshare hsi)
+    subst this
+    exact hj0
+  · -- all-zero weights: the call raises, so `h0` is impossible
+    have ha : a = 0 := by omega
+    have hb : b = 0 := by omega
+    subst ha; subst hb
+    have herr : Choice.choiceIdx (some h) 2 (some (floatWeights [0, 0])) none
+        = .error (.valueError "nonpositive") := rfl
+    rw [herr] at h0
+    cases h0
+
+/-- **The hash position does not depend on the weights**: whenever the weighted call gets past
+    its argument checks (running totals `cum`, float total `t`), the result is the bisect of
+    `proba h · t`, where `Choice.proba h = h / 2^32` mentions only the id's hash. -/
+theorem C10_position_independent_of_weights (h n : Nat) (ws cum : List Num) (last : Num) (t : Dbl)
+    (hacc : Choice.accumulate ws = .ok cum) (hlen : cum.length = n)
+    (hlast : cum.getLast? = some last)
+    (htot : Num.add last (.f Dbl.zero) = .ok (.f t))
+    (hposT : Dbl.le t Dbl.zero = false) (hfin : t.isFinite = true) :
+    Choice.choiceIdx (some h) n (some ws) none
+      = .ok (.idx (Choice.bisect cum (Dbl.mul (Choice.proba h) t) 0 (n - 1))) :=
+  Proofs.choiceIdx_eq_bisect h n ws cum last t hacc hlen hlast htot hposT hfin
+
+/-- `proba` is a function of the hash numerator alone -/
+theorem C10_proba_def (h : Nat) : Choice.proba h = Dbl.ofNatDivPow2 h 32 := rfl
+
+-- concrete instances meeting the hypotheses
+/-- [1, 9] → [2, 8] (10% → 20%): the share hypothesis holds at every cut -/
+example : ∀ k, k ≤ [1, 9].length →
+    prefixSum [1, 9] k * total [2, 8] ≤ prefixSum [2, 8] k * total [1, 9] := by decide
+example : 1 * (2 + 8) ≤ 2 * (1 + 9) := by decide
+/-- position `h = 400000000` (≈ 9.3%) is in group 0 under both -/
+example : IsSpecIdx [1, 9] 400000000 0 ∧ IsSpecIdx [2, 8] 400000000 0 := by decide
+/-- position `h = 600000000` (≈ 14%) moves *earlier*: group 1 under [1, 9], group 0 under [2, 8] -/
+example : IsSpecIdx [1, 9] 600000000 1 ∧ IsSpecIdx [2, 8] 600000000 0 := by decide
+/-- and through the code -/
+example : Choice.choiceIdx (some 400000000) 2 (some (floatWeights [1, 9])) none = .ok (.idx 0)
+    ∧ Choice.choiceIdx (some 400000000) 2 (some (floatWeights [2, 8])) none = .ok (.idx 0) :=
+  ⟨rfl, rfl⟩
 
 end Pyab.Properties
